@@ -946,4 +946,107 @@ theorem tRun_now (cfg : TCfg) (hP : 1 ≤ cfg.pingMs) (es : List TEvent) (s : TS
     | pong => rw [tStep_pong cfg s hq]; rfl
     | pingCmd tok => rw [tStep_pingCmd_state]; rfl
 
+/-! ## run level: the silent client in the repaired variant -/
+
+theorem silent_core (cfg : TCfg) (hP : 1 ≤ cfg.pingMs) (hT : 1 ≤ cfg.pongMs)
+    (hfix : cfg.fixed = true) (s : TState) (es : List TEvent) (D : Nat)
+    (hq : s.quit = false) (hr : s.registered = true) (hnow : s.now < s.nextPing)
+    (hDD : (s.deadline = some D ∧ s.now < D) ∨
+      (s.deadline = none ∧ D = s.nextPing + cfg.pongMs))
+    (hnp : noPong es = true) :
+    (s.now + duration es < D →
+      (tRun cfg s es).1.quit = false ∧ errorTimes (tRun cfg s es).2 = []) ∧
+    (D ≤ s.now + duration es →
+      ∃ m, (tRun cfg s es).1 =
+          { s with now := D, nextPing := s.nextPing + m * cfg.pingMs, deadline := none,
+                   quit := true } ∧
+        timerOut (tRun cfg s es).2 =
+          (pingList s.nextPing cfg.pingMs m).map TOut.ping ++ [TOut.errorTimeout D] ∧
+        (∀ j, j < m ↔ s.nextPing + j * cfg.pingMs < D)) := by
+  have hwf : WF s := by
+    intro _ _
+    refine ⟨hnow, ?_⟩
+    intro d hd
+    rcases hDD with ⟨h, h'⟩ | ⟨h, _⟩
+    · rw [h] at hd; simp at hd; omega
+    · rw [h] at hd; simp at hd
+  have hDD' : s.deadline = some D ∨ (s.deadline = none ∧ D = s.nextPing + cfg.pongMs) := by
+    rcases hDD with ⟨h, _⟩ | h
+    · exact Or.inl h
+    · exact Or.inr h
+  obtain ⟨h1, h2⟩ := tRun_noPong cfg hP es s hwf hnp
+  rw [tStep_advance_of_not_quit cfg s _ hq] at h1 h2
+  constructor
+  · intro hlt
+    obtain ⟨a, b⟩ := adv_before_fixed cfg hP hfix _ D hlt s hq hr hDD'
+    exact ⟨by rw [h1]; exact a, by rw [← errorTimes_timerOut, h2, errorTimes_timerOut]; exact b⟩
+  · intro hle
+    obtain ⟨m, a, b, c⟩ := adv_timeout_fixed cfg hP hT hfix _ D hle s hq hr hDD'
+    refine ⟨m, by rw [h1, a], ?_, ?_⟩
+    · rw [h2, a]; simp only [timerOut_append, timerOut_map_ping]; rfl
+    · intro j
+      constructor
+      · exact b j
+      · intro hj
+        apply Nat.lt_of_not_le
+        intro hmj
+        have := Nat.mul_le_mul_right cfg.pingMs hmj
+        omega
+
+/-! ## a client that answers the `k`-th PING `δ k` ms later -/
+
+def delayAt (δ : Nat → Nat) : Nat → Nat
+  | 0 => 0
+  | k + 1 => δ (k + 1)
+
+/-- `n` rounds: wait for the next PING plus `δ`, answer. -/
+def answering (P : Nat) (δ : Nat → Nat) : Nat → List TEvent
+  | 0 => []
+  | n + 1 => answering P δ n ++ [.advance (P + δ (n + 1) - delayAt δ n), .pong]
+
+theorem duration_append (a b : List TEvent) : duration (a ++ b) = duration a + duration b := by
+  induction a with
+  | nil => simp [duration]
+  | cons e es ih => cases e <;> simp [duration, ih, Nat.add_assoc]
+
+theorem pongTimes_append (t0 : Nat) (a b : List TEvent) :
+    pongTimes t0 (a ++ b) = pongTimes t0 a ++ pongTimes (t0 + duration a) b := by
+  induction a generalizing t0 with
+  | nil => simp [pongTimes, duration]
+  | cons e es ih => cases e <;> simp [pongTimes, duration, ih, Nat.add_assoc]
+
+theorem delayAt_succ (δ : Nat → Nat) (k : Nat) : delayAt δ (k + 1) = δ (k + 1) := rfl
+
+theorem delayAt_lt (δ : Nat → Nat) (B : Nat) (hB : 0 < B) (h : ∀ k, δ k < B) (n : Nat) :
+    delayAt δ n < B := by
+  cases n with
+  | zero => exact hB
+  | succ n => exact h (n + 1)
+
+theorem duration_answering (P : Nat) (δ : Nat → Nat) (h : ∀ k, δ k < P) (n : Nat) :
+    duration (answering P δ n) = n * P + delayAt δ n := by
+  induction n with
+  | zero => simp [answering, duration, delayAt]
+  | succ n ih =>
+    have := delayAt_lt δ P (by have := h 0; omega) h n
+    rw [answering, duration_append, ih]
+    simp only [duration, delayAt_succ, Nat.succ_mul]; omega
+
+theorem mem_pongTimes_answering (P : Nat) (δ : Nat → Nat) (h : ∀ k, δ k < P) (regAt : Nat)
+    (n k : Nat) (hk : 1 ≤ k) (hkn : k ≤ n) :
+    regAt + k * P + δ k ∈ pongTimes regAt (answering P δ n) := by
+  induction n with
+  | zero => omega
+  | succ n ih =>
+    rw [answering, pongTimes_append, List.mem_append]
+    by_cases hkn' : k ≤ n
+    · exact Or.inl (ih hkn')
+    · right
+      have hk' : k = n + 1 := by omega
+      subst hk'
+      have := delayAt_lt δ P (by have := h 0; omega) h n
+      simp only [pongTimes, duration_answering P δ h n, List.mem_cons, List.not_mem_nil,
+        or_false, Nat.succ_mul]
+      omega
+
 end Irc.Timer
